@@ -5,9 +5,11 @@ pushed through the five closed forms spread over four modules
   turb.phase_covariance, slopecovariance.structure_function_vk / _kolmogorov,
   karhunenLoeve.stf_vonKarman / stf_vonKarman_yao / stf_kolmogorov
 and through the power spectrum that the FFT screen generators really use (observed from
-outside: the response of ft_phase_screen / ft_sh_phase_screen to every unit Gaussian draw
-is sqrt(PSD(f_k)) del_f times a unit wave, so the spectrum samples and its constant are
-read off the real code).  Oracles: D = 2(B(0)-B), the Hankel transform of that spectrum
+outside: the screen is linear in its Gaussian draws, so pulsing EVERY consumed draw j gives the
+exact second moments sum_j t_j t_j^T of the screens; their power per DFT bin is the spectrum
+sample PSD(f_q) del_f^2 - independent of how, in which order and in which packing the draws are
+requested - and the pixel-pair structure function of the sub-harmonic screen minus that of the
+FFT screen is the contribution of the sub-harmonic waves).  Oracles: D = 2(B(0)-B), the Hankel transform of that spectrum
 (plain quadrature in mc/refmodels/vk_closed_forms.py), the textbook closed forms, the
 Kolmogorov limit along an L0 ladder, D(0) = 0, monotonicity, saturation, r0^(-5/3), and
 positive semi-definiteness of the Gram matrix of EVERY subset of small point lattices.
@@ -27,24 +29,42 @@ LEVEL = "exploration"
 ENGINES = ["E1-product-enumeration", "E2-basis-exhaustion"]
 TECHNIQUE = ("bounded exhaustive enumeration: separation ladder x r0 x L0 x input forms through all "
              "closed forms; power spectrum of the screen generators observed by basis exhaustion of the "
-             "Gaussian draws; Gram matrices of every subset of 3x3 / every 4-subset of 4x4 point lattices")
+             "Gaussian draws (exact second moments of the screens, independent of the draw layout); Gram matrices of "
+             "every subset of 3x3 / every 4-subset of 4x4 point lattices / every subset of an irregular 8-point set")
 RULE = ("cases = origin:{function x input form} + forms:{r0 x L0} + kolmo:{r0} + kl:{L0} + "
-        "psd:{N x configuration} + gram3/gram4:{spacing x r0 x L0}; each case loops over the complete "
+        "psd:{N x configuration} + psdspot:{fft, subharmonic} + gram3/gram4/gramx:{spacing x r0 x L0}; each case loops over the complete "
         "separation ladder / all subsets; a case is non-trivial unless it only evaluates r = 0 of a "
         "Kolmogorov power law")
 ASSUMPTIONS = [
     "lattice in (r, r0, L0): values between ladder points are not covered; monotonicity is only "
     "decided between ladder points; exact r0^(-5/3) scaling is verified as an exact relation",
-    "separations with 0 < r/L0 < 1e-8 are excluded: there the closed form 1 - c x^(5/6) K_{5/6}(x) cancels "
-    "catastrophically in float64 (numerical-range observation, recorded in the evidence notes)",
+    "separations with 0 < r/L0 < 1e-8: there the closed form 1 - c x^(5/6) K_{5/6}(x) cancels catastrophically in "
+    "float64, so only the clauses that carry the absolute rounding allowance 1e-13 B(0) are evaluated there (down "
+    "to r = 1e-200 L0); purely relative clauses (Hankel transform, Kolmogorov ratio) start at r/L0 = 1e-8",
     "phase_covariance computes in float32, so comparisons through it carry an absolute allowance of "
     "1e-6 B(0); the Kolmogorov limit is therefore decided on the structure-function copies and reaches "
     "the covariance route only through the clause D = 2(B(0)-B)",
-    "the Kolmogorov limit is a bounded surrogate: gap non-increasing along the L0 ladder and <= 2e-2 at "
-    "its end (convergence is only proportional to (r/L0)^(1/3))",
+    "the Kolmogorov limit is a bounded surrogate: gap non-increasing along the L0 ladder and <= 2.5e-2 at "
+    "its end (convergence is only proportional to (r/L0)^(1/3): 1.485e-2 at r = 1, L0 = 1e6, plus 2e-3 for each of "
+    "the two rounded constants)",
     "tolerances: 2e-3 for published-constant rounding (0.17253 vs 0.172629, 6.88 vs 6.8839, 0.0863 vs "
-    "0.086314), 1.2e-2 for the screen spectrum constant 0.023 vs 0.022896, 1e-12 relative + 1e-13 B(0) "
-    "(float64 rounding of the cancelling closed form) for exact identities",
+    "0.086314) - also between the copies of different modules, which may round differently -, 1.2e-2 for the "
+    "screen spectrum constant 0.023 vs 0.022896, 1e-12 relative + 1e-13 B(0) (float64 rounding of the cancelling "
+    "closed form) for identities inside one function (r0 scaling, input forms)",
+    "screen spectrum: even N only (for odd N ft_phase_screen samples the spectrum at half-bin offsets and zeroes a "
+    "non-zero frequency; C07 declares odd N outside its property as well); the screen is assumed linear in its "
+    "normal() draws - verified on the library under test, otherwise the spectrum clauses are recorded as "
+    "*_not_claimed and skipped; the DC bin is not constrained (it does not enter the structure function); the "
+    "sub-harmonic screen is compared with Schmidt's three 3x3 grids of spacing 1/(3^p N delta); the FFT= "
+    "accelerator argument is not exercised",
+    "the spot probes at N = 1024 (FFT screen) and N = 256 (sub-harmonics) cannot pulse every draw: they assume that "
+    "a bin pair +-q is fed by exactly the four draws that feed it at small N; the parts of this that are observable "
+    "(number of draws, each probed response confined to +-q) are tested first, otherwise *_not_claimed",
+    "stf_vonKarman_yao is a truncated small-argument series: compared only for r/L0 <= 0.1 (it leaves the model "
+    "beyond, is negative for r > 0.35 L0; it has no caller in the library)",
+    "KL kernel: the structure function inside gkl_kernel is recovered as the inverse DFT over the azimuth; the "
+    "azimuthal sampling is validated on the library under test with the Kolmogorov tag (pure power law of the chord), "
+    "the normalisation cancels in the ratio von Karman / Kolmogorov; otherwise kl_kernel_not_claimed",
     "trusted: scipy.special (kv, gamma, j0) inside the reference model, numpy.linalg.eigvalsh",
 ]
 
@@ -66,7 +86,16 @@ KOLMO_R = [0.01, 0.03, 0.1, 0.3, 1.0]
 SCALE_C = [2.0, 0.5, 3.7]
 GRAM_SPACINGS = [0.05, 0.5, 5.0]
 GRAM_L0 = [1.0, 25.0, 1e4]
+# irregular point set (units of the spacing): a collinear triple, three nearly coincident points, far points
+GRAMX_PTS = [(0.0, 0.0), (1.0, 0.0), (2.5, 0.0), (0.3, 1.7), (0.301, 1.7), (0.3, 1.702), (7.1, -3.3), (-40.0, 55.0)]
 PSD_CFG = [(0.5, 0.1, 25.0, 0.01), (0.1, 0.2, 5.0, 1e-3), (1.0, 1.0, 100.0, 0.5), (0.25, 0.05, 1e4, 1e-6)]
+# outer scale SMALLER than the screen (the usual case for 8-40 m screens): (delta, r0, L0 / (N delta), l0)
+PSD_CFG_REL = [(0.5, 0.15, 1.0 / 3.0, 0.01), (1.0, 0.2, 1.0 / 20.0, 0.02)]
+# separations below RANGE_MIN, in units of L0 (only clauses with the absolute rounding allowance see them).
+# Measured on the unchanged library: |D - model| <= 3e-15 B(0) down to 1e-100 L0, 1.0e-14 at 1e-200 L0,
+# 1.5e-14 at 1e-280 L0 (K_{5/6} loses digits for huge values) -> 1e-13 B(0) keeps a factor 10 at 1e-200.
+TINY_FACTORS = [1e-200, 1e-100, 1e-30, 1e-15, 1e-12, 1e-10, 1e-9]
+SPOT_N_FFT, SPOT_N_SH = 1024, 256
 FORMS = ["pyfloat", "pyint", "np_float64", "array0d", "array1d", "array2d", "float32_array"]
 ORIGIN_FUNCS = ["structure_function_vk", "stf_vonKarman", "structure_function_kolmogorov",
                 "stf_kolmogorov", "stf_vonKarman_yao", "phase_covariance"]
@@ -88,7 +117,12 @@ def _L0s(tier):
 
 
 def _psdN(tier):
-    return [2, 4, 8] if tier == "quick" else [2, 4, 6, 8, 12, 16]
+    return [2, 4, 8, 16] if tier == "quick" else [2, 4, 6, 8, 12, 16, 32]
+
+
+def _psd_cfgs(N):
+    """index -> (delta, r0, L0, l0); 0-3: outer scale beyond the screen, 4-5: L0 = N delta / 3, N delta / 20"""
+    return list(PSD_CFG) + [(d, r0, rel * N * d, l0) for (d, r0, rel, l0) in PSD_CFG_REL]
 
 
 def BOUNDS(tier):
@@ -98,8 +132,12 @@ def BOUNDS(tier):
             "gram": {"lattices": ["all subsets (size>=2) of 3x3: 502", "all 4-subsets of 4x4: 1820"],
                      "spacings": GRAM_SPACINGS, "L0": GRAM_L0,
                      "r0": [0.1] if tier == "quick" else [0.1, 1.0]},
-            "screen_psd": {"N": _psdN(tier), "(delta,r0,L0,l0)": PSD_CFG},
-            "range_min_r_over_L0": RANGE_MIN}
+            "gram_irregular_points_in_units_of_spacing": GRAMX_PTS,
+            "screen_psd": {"N": _psdN(tier), "(delta,r0,L0,l0)": PSD_CFG,
+                           "(delta,r0,L0/(N delta),l0)": PSD_CFG_REL,
+                           "spot_N_fft_screen": SPOT_N_FFT, "spot_N_subharmonics": SPOT_N_SH,
+                           "largest_N_all_draws": _psdN(tier)[-1], "largest_N_spot": SPOT_N_FFT},
+            "range_min_r_over_L0": RANGE_MIN, "separations_below_range_in_L0": TINY_FACTORS}
 
 
 def cases(tier):
@@ -120,8 +158,10 @@ def cases(tier):
     for L0 in _L0s(tier):
         yield Case("kl:L0=%g" % L0, {"kind": "kl", "L0": L0, "tier": tier})
     for N in _psdN(tier):
-        for i, cfg in enumerate(PSD_CFG):
+        for i, cfg in enumerate(_psd_cfgs(N)):
             yield Case("psd:N=%d:cfg=%d" % (N, i), {"kind": "psd", "N": N, "cfg": cfg})
+    yield Case("psdspot:fft:N=%d" % SPOT_N_FFT, {"kind": "psdspot", "what": "fft", "N": SPOT_N_FFT})
+    yield Case("psdspot:subharmonic:N=%d" % SPOT_N_SH, {"kind": "psdspot", "what": "sh", "N": SPOT_N_SH})
     for sp in GRAM_SPACINGS:
         for r0 in ([0.1] if tier == "quick" else [0.1, 1.0]):
             for L0 in GRAM_L0:
@@ -129,6 +169,8 @@ def cases(tier):
                            {"kind": "gram", "n": 3, "sp": sp, "r0": r0, "L0": L0})
                 yield Case("gram4:sp=%g:r0=%g:L0=%g" % (sp, r0, L0),
                            {"kind": "gram", "n": 4, "sp": sp, "r0": r0, "L0": L0})
+                yield Case("gramx:sp=%g:r0=%g:L0=%g" % (sp, r0, L0),
+                           {"kind": "gram", "n": 0, "sp": sp, "r0": r0, "L0": L0})
 
 
 # ----------------------------------------------------------------------------- helpers
@@ -170,7 +212,12 @@ def _call_forms(f, form, values):
     if mode == "whole2":
         if y.shape != (2, len(values)):
             raise ValueError("2-D input gave output shape %s" % (y.shape,))
-        if not numpy.array_equal(y[0], y[1][::-1], equal_nan=True):
+        # the same values at other positions of the array: equal up to rounding (vectorised loops need not be
+        # position independent), non-finite values at the same places
+        a_, b_ = y[0], y[1][::-1]
+        fin = numpy.isfinite(a_)
+        if not (numpy.array_equal(fin, numpy.isfinite(b_)) and numpy.array_equal(a_[~fin], b_[~fin], equal_nan=True)
+                and numpy.all(numpy.abs(a_[fin] - b_[fin]) <= 1e-12 * max(1e-300, float(numpy.max(numpy.abs(a_[fin]), initial=0.0))))):
             raise ValueError("rows of a 2-D input are not evaluated element-wise")
         y = y[0]
     if y.shape != (len(values),):
@@ -178,38 +225,116 @@ def _call_forms(f, form, values):
     return numpy.array(values, dtype=float), y, 1
 
 
-def _extract_psd(N, delta, r0, L0, l0, o=None):
-    """spectrum samples used by ft_phase_screen, observed through unit Gaussian draws:
-    the responses to the real and imaginary unit draw at frequency k are
-    sqrt(PSD_k) del_f cos(.) and -sqrt(PSD_k) del_f sin(.): mean(t_re^2 + t_im^2) = PSD_k del_f^2."""
-    from aotools.turbulence import phasescreen
-    n = 2 * N * N
-    g0 = SeqGenerator(numpy.zeros(n))
-    z = phasescreen.ft_phase_screen(r0, N, delta, L0, l0, seed=g0)
-    calls = list(g0.calls)
-    del_f = 1.0 / (N * delta)
-    P = numpy.zeros((N, N))
-    for k in range(N * N):
-        a = phasescreen.ft_phase_screen(r0, N, delta, L0, l0, seed=unit_draws(n, k))
-        b = phasescreen.ft_phase_screen(r0, N, delta, L0, l0, seed=unit_draws(n, N * N + k))
-        P.flat[k] = numpy.mean(a * a + b * b) / del_f ** 2
+class _NotClaimed(Exception):
+    """an assumption of the measuring instrument does not hold on the library under test"""
+
+
+def _screen(gen, seed):
+    """one screen from the library; the draw-injection double refusing a request (a distribution other than
+    normal()) is a limit of the instrument, not a defect of the library"""
+    try:
+        return numpy.asarray(gen(seed), dtype=float)
+    except RuntimeError as e:
+        if "unexpected random source" in str(e):
+            raise _NotClaimed("the generator draws from a distribution other than normal()")
+        raise
+
+
+def _second_moments(gen, N, refs, o=None):
+    """Exact second moments of the random screens gen(seed), whatever the number, shape, order and real/imaginary
+    packing of the normal() requests: every consumed Gaussian draw j is pulsed (screen t_j for the unit draw vector
+    e_j) and, the screen being linear in its draws,
+        E |DFT(screen)(q)|^2         = sum_j |DFT(t_j)(q)|^2           -> W  (N, N), numpy.fft bin order
+        E (screen(x) - screen(x0))^2 = sum_j (t_j(x) - t_j(x0))^2      -> D  (len(refs), N, N)
+    Linearity itself is tested with one dyadic draw vector; if it does not hold: _NotClaimed."""
+    g0 = SeqGenerator(())
+    z0 = _screen(gen, g0)
+    n = g0.consumed
+    if z0.shape != (N, N):
+        raise ValueError("screen of shape %s for N = %d" % (z0.shape, N))
+    if n == 0:
+        raise _NotClaimed("no normal() draw consumed")
+    W = numpy.zeros((N, N))
+    D = numpy.zeros((len(refs), N, N))
+    v = ((numpy.arange(n) * 7) % 5 - 2.0) / 4.0
+    acc = numpy.zeros((N, N))
+    for j in range(n):
+        g = unit_draws(n, j)
+        t = _screen(gen, g) - z0
+        if g.consumed != n:
+            raise _NotClaimed("the number of draws depends on their values")
+        W += numpy.abs(numpy.fft.fft2(t)) ** 2
+        for k, (ri, ci) in enumerate(refs):
+            D[k] += (t - t[ri, ci]) ** 2
+        acc += v[j] * t
+    zl = _screen(gen, SeqGenerator(v)) - z0
     if o is not None:
-        o.stat("lib_calls", 1 + 2 * N * N)
-    fx = (numpy.arange(N) - N // 2) * del_f
+        o.stat("lib_calls", n + 2)
+    lin = float(numpy.max(numpy.abs(zl - acc))) / max(float(numpy.max(numpy.abs(zl))), 1e-300)
+    if not lin <= 1e-9:
+        raise _NotClaimed("the screen is not linear in its draws (%.3g)" % lin)
+    return {"n": n, "calls": list(g0.calls), "zmax": float(numpy.max(numpy.abs(z0))), "W": W, "D": D}
+
+
+def _bin_freq(N, delta):
+    """|f| of the DFT bins of an N x N screen with pixel size delta (numpy.fft order)"""
+    fx = numpy.fft.fftfreq(N, d=delta)
     FX, FY = numpy.meshgrid(fx, fx)
-    return P, numpy.hypot(FX, FY), calls, float(numpy.max(numpy.abs(z)))
+    return numpy.hypot(FX, FY)
+
+
+def _extract_psd(N, delta, r0, L0, l0, o=None, refs=()):
+    """spectrum samples really used by ft_phase_screen: power of the screens per DFT bin / del_f^2 (the screen is
+    sum_q sqrt(PSD(f_q)) del_f (a_q + i b_q) exp(2 pi i f_q x), real part: E|DFT(q)|^2 = N^4 del_f^2 PSD(|f_q|) for
+    even N, self-conjugate bins included).  Returns (P, |f|, moments)."""
+    from aotools.turbulence import phasescreen
+    m = _second_moments(lambda s: phasescreen.ft_phase_screen(r0, N, delta, L0, l0, seed=s), N, refs, o)
+    del_f = 1.0 / (N * delta)
+    return m["W"] / (N ** 4 * del_f ** 2), _bin_freq(N, delta), m
+
+
+def _psd_constant(P, f, r0, L0, l0):
+    """constant c and relative spread of P / [r0^(-5/3) exp(-(f/fm)^2) (f^2+1/L0^2)^(-11/6)] over the bins f > 0"""
+    shape = vk.screen_psd(f, r0, L0, l0, 1.0)
+    live = f > 0
+    c = P[live] / shape[live]
+    cm = float(numpy.mean(c))
+    return cm, float((c.max() - c.min()) / cm), c
 
 
 def _screen_constant(r0, L0, o):
     """the constant c of the spectrum c r0^(-5/3) (f^2+f0^2)^(-11/6) really used for screens at
     this (r0, L0): N = 4 grid spanning the outer scale, inner scale pushed out of the grid"""
     N, delta, l0 = 4, L0 / 4.0, L0 * 1e-10
-    P, f, calls, zmax = _extract_psd(N, delta, r0, L0, l0, o)
-    shape = vk.screen_psd(f, r0, L0, l0, 1.0)
-    live = numpy.ones((N, N), bool)
-    live[N // 2, N // 2] = False
-    c = P[live] / shape[live]
-    return float(numpy.mean(c)), float((c.max() - c.min()) / numpy.mean(c))
+    P, f, m = _extract_psd(N, delta, r0, L0, l0, o)
+    cm, spread, c = _psd_constant(P, f, r0, L0, l0)
+    return cm, spread
+
+
+def _subharmonic_D(N, delta, r0, L0, l0, c, refs):
+    """E (s(x) - s(x0))^2 of the sub-harmonic part of a Schmidt screen: three 3 x 3 frequency grids of spacing
+    1 / (3^p N delta), each wave with power PSD(f) del_f^2 (constant c): sum 2 PSD del_f^2 (1 - cos(2 pi f.(x-x0))).
+    Independent of the phase origin, of the quadrature of the waves and of the removal of the mean."""
+    out = numpy.zeros((len(refs), N, N))
+    rows, cols = numpy.indices((N, N))
+    for k, (ri, ci) in enumerate(refs):
+        dy, dx = (rows - ri) * delta, (cols - ci) * delta
+        for lvl in range(1, 4):
+            df = 1.0 / (3 ** lvl * N * delta)
+            for a in (-1, 0, 1):
+                for b in (-1, 0, 1):
+                    if a == 0 and b == 0:
+                        continue
+                    pw = float(vk.screen_psd(math.hypot(a, b) * df, r0, L0, l0, c)) * df * df
+                    out[k] += 2.0 * pw * (1.0 - numpy.cos(2.0 * numpy.pi * df * (a * dx + b * dy)))
+    return out
+
+
+def _refs(N):
+    """reference pixels of the pixel-pair structure function: all pixels up to N = 8, else five spread pixels"""
+    if N <= 8:
+        return [(i, j) for i in range(N) for j in range(N)]
+    return [(0, 0), (N // 2, N // 2), (N - 1, 1), (3, N - 2), (N // 3, 2 * N // 3)]
 
 
 # ----------------------------------------------------------------------------- evaluate
@@ -344,8 +469,8 @@ def _scalecov(p):
 
 
 def evaluate(p):
-    fn = {"origin": _origin, "forms": _forms, "kolmo": _kolmo, "kl": _kl, "psd": _psd, "gram": _gram,
-          "repeat": _repeat, "elementwise": _elementwise, "scalecov": _scalecov}[p["kind"]]
+    fn = {"origin": _origin, "forms": _forms, "kolmo": _kolmo, "kl": _kl, "psd": _psd, "psdspot": _psdspot,
+          "gram": _gram, "repeat": _repeat, "elementwise": _elementwise, "scalecov": _scalecov}[p["kind"]]
     # 0 * inf, overflow of K_{5/6} at 0 and the like are outcomes to be judged, not warnings to print
     with warnings.catch_warnings(), numpy.errstate(all="ignore"):
         warnings.simplefilter("ignore")
@@ -408,70 +533,89 @@ def _forms(p):
     Rall = numpy.array(_R(tier) + [s * L0 for s in SAT_FACTORS if s * L0 not in _R(tier)])
     Rall = numpy.array(sorted(set(Rall.tolist())))
     inrange = Rall / L0 >= RANGE_MIN
-    o.note("excluded_r_over_L0_below_1e-8", int((~inrange).sum()))
-    R = Rall[inrange]
+    # below the range: the ladder points with r/L0 < 1e-8 and the tiny ladder; only clauses with an absolute
+    # rounding allowance see them
+    Rlow = numpy.array(sorted(set(Rall[~inrange].tolist()) | set(f * L0 for f in TINY_FACTORS)))
+    nl = len(Rlow)
+    o.note("separations_with_r_over_L0_below_1e-8", nl)
+    Rf = numpy.concatenate([Rlow, Rall[inrange]])          # ascending: every Rlow is below every in-range point
+    R = Rf[nl:]
     B0ref = vk.variance(r0, L0)
-    Dref = vk.structure_function(R, r0, L0)
+    Dref_f = vk.structure_function(Rf, r0, L0)
+    Dref = Dref_f[nl:]
 
-    D = numpy.asarray(sc.structure_function_vk(R.copy(), r0, L0), dtype=float)
-    B = numpy.asarray(turb.phase_covariance(R.copy(), r0, L0), dtype=float)
+    Df = numpy.asarray(sc.structure_function_vk(Rf.copy(), r0, L0), dtype=float)
+    Bf = numpy.asarray(turb.phase_covariance(Rf.copy(), r0, L0), dtype=float)
     B0 = float(numpy.asarray(turb.phase_covariance(0.0, r0, L0)))
     o.stat("lib_calls", 3)
-    sub = lambda i: "r=%g" % R[i]
+    if Df.shape != Rf.shape or Bf.shape != Rf.shape:
+        o.check("forms_agree", False, sub="output_shape", detail="shapes %s / %s for %d separations" % (Df.shape, Bf.shape, len(Rf)))
+        return o
+    D, B = Df[nl:], Bf[nl:]
 
-    def each(clause, measure, tol, fmt):
+    def each(clause, measure, tol, fmt, RR=R):
         """one clause evaluation per ladder point; failures get the separation as sub id"""
         measure = numpy.where(numpy.isfinite(measure), measure, numpy.inf)
         bad = numpy.nonzero(~(measure <= tol))[0]
         o.check(clause, True, measure=float(measure.max()), tol=tol, n=len(measure) - len(bad))
         for i in bad:
-            o.check(clause, False, sub=sub(i), measure=float(measure[i]), tol=tol, detail=fmt(i))
+            o.check(clause, False, sub="r=%g" % RR[i], measure=float(measure[i]), tol=tol, detail=fmt(i))
 
-    # textbook closed form (normalisation pinned by the variance constant quoted in the statement)
-    each("D_vs_textbook", numpy.abs(D / Dref - 1.0), TOL_CONST,
-         lambda i: "structure_function_vk(%g,%g,%g)=%r, textbook %r" % (R[i], r0, L0, D[i], Dref[i]))
+    # textbook closed form (normalisation pinned by the variance constant quoted in the statement); the absolute
+    # term is the float64 rounding of 1 - c x^(5/6) K(x) (measured: up to 14 ulp of 1 at r/L0 = 1e-8, i.e. 8e-4 of
+    # D there, and -4e-4..+9e-4 for algebraically equivalent orders of the operations), whole ladder incl. tiny r
+    each("D_vs_textbook", numpy.abs(Df - Dref_f) / (TOL_CONST * numpy.abs(Dref_f) + TOL_ROUND * B0ref), 1.0,
+         lambda i: "structure_function_vk(%g,%g,%g)=%r, textbook %r" % (Rf[i], r0, L0, Df[i], Dref_f[i]), Rf)
 
     # D = 2 (B(0) - B(r))
     b0_ok = math.isfinite(B0)
     if b0_ok:
-        D2 = 2.0 * (B0 - B)
-        each("D_eq_2dB", numpy.abs(D2 - D) / (TOL_CONST * numpy.abs(D) + TOL_F32 * B0ref), 1.0,
-             lambda i: "2(B(0)-B(r))=%r vs structure_function_vk=%r (B0=%r)" % (D2[i], D[i], B0))
+        D2f = 2.0 * (B0 - Bf)
+        D2 = D2f[nl:]
+        each("D_eq_2dB", numpy.abs(D2f - Df) / (TOL_CONST * numpy.abs(Df) + TOL_F32 * B0ref), 1.0,
+             lambda i: "2(B(0)-B(r))=%r vs structure_function_vk=%r (B0=%r)" % (D2f[i], Df[i], B0), Rf)
     else:
         o.note("skipped_B0_nonfinite", "phase_covariance(0,%g,%g) is not finite (reported by cov_zero_finite); "
                "clauses through B(0) not evaluable" % (r0, L0))
         o.stat("clauses_skipped_nonfinite_B0", 1)
-    each("cov_vs_textbook", numpy.abs(B - vk.covariance(R, r0, L0)) / (TOL_CONST * numpy.abs(B) + TOL_F32 * B0ref), 1.0,
-         lambda i: "phase_covariance(%g,%g,%g)=%r, textbook %r" % (R[i], r0, L0, B[i], vk.covariance(R[i:i + 1], r0, L0)[0]))
+    Bref_f = vk.covariance(Rf, r0, L0)
+    each("cov_vs_textbook", numpy.abs(Bf - Bref_f) / (TOL_CONST * numpy.abs(Bf) + TOL_F32 * B0ref), 1.0,
+         lambda i: "phase_covariance(%g,%g,%g)=%r, textbook %r" % (Rf[i], r0, L0, Bf[i], Bref_f[i]), Rf)
 
     # Hankel transform of the spectrum that the screen generators really use
-    c_scr, spread = _screen_constant(r0, L0, o)
-    o.close("screen_psd_is_von_karman", spread, 1e-10)
-    o.note("screen_psd_constant", c_scr)
-    H = numpy.zeros(len(R))
-    tb = 0.0
-    for i, r in enumerate(R):
-        info = {}
-        H[i] = vk.hankel_structure_function(r, 1.0, L0, c=c_scr, info=info) * r0 ** (-5.0 / 3.0)
-        tb = max(tb, info["trunc_bound"] * r0 ** (-5.0 / 3.0) / H[i])
-    o.close("reference_quadrature_truncation", tb, 1e-6)
-    each("D_vs_hankel_of_screen_psd", numpy.abs(D / H - 1.0), TOL_HANKEL,
-         lambda i: "structure_function_vk=%r, Hankel transform of the screen PSD=%r" % (D[i], H[i]))
-    if b0_ok:
-        each("cov_vs_hankel_of_screen_psd", numpy.abs(D2 - H) / (TOL_HANKEL * H + TOL_F32 * B0ref), 1.0,
-             lambda i: "2(B(0)-B)=%r, Hankel transform of the screen PSD=%r" % (D2[i], H[i]))
+    try:
+        c_scr, spread = _screen_constant(r0, L0, o)
+    except _NotClaimed as e:
+        c_scr = None
+        o.stat("screen_psd_not_claimed", 1)
+        o.note("screen_psd_not_claimed", str(e))
+    if c_scr is not None:
+        o.close("screen_psd_is_von_karman", spread, 1e-10)
+        o.note("screen_psd_constant", c_scr)
+        H = numpy.zeros(len(R))
+        tb = 0.0
+        for i, r in enumerate(R):
+            info = {}
+            H[i] = vk.hankel_structure_function(r, 1.0, L0, c=c_scr, info=info) * r0 ** (-5.0 / 3.0)
+            tb = max(tb, info["trunc_bound"] * r0 ** (-5.0 / 3.0) / H[i])
+        o.close("reference_quadrature_truncation", tb, 1e-6)
+        each("D_vs_hankel_of_screen_psd", numpy.abs(D / H - 1.0), TOL_HANKEL,
+             lambda i: "structure_function_vk=%r, Hankel transform of the screen PSD=%r" % (D[i], H[i]))
+        if b0_ok:
+            each("cov_vs_hankel_of_screen_psd", numpy.abs(D2 - H) / (TOL_HANKEL * H + TOL_F32 * B0ref), 1.0,
+                 lambda i: "2(B(0)-B)=%r, Hankel transform of the screen PSD=%r" % (D2[i], H[i]))
 
     # input forms: same numbers whatever the container
     for form in FORMS:
         try:
-            rr, y, c = _call_forms(lambda r: sc.structure_function_vk(r, r0, L0), form, R.tolist())
+            rr, y, c = _call_forms(lambda r: sc.structure_function_vk(r, r0, L0), form, Rf.tolist())
         except ValueError as e:
             o.check("forms_agree", False, sub="structure_function_vk:" + form, detail=str(e))
             continue
         o.stat("lib_calls", c)
         if len(rr) == 0:
             continue
-        base = D[numpy.isin(R, rr)]
+        base = Df[numpy.isin(Rf, rr)]
         if form == "float32_array":
             m = numpy.abs(y - base) / (1e-5 * numpy.abs(base) + TOL_F32 * B0ref)
         else:
@@ -480,24 +624,27 @@ def _forms(p):
         o.check("forms_agree", bool(m.max() <= 1.0), sub="structure_function_vk:" + form, measure=float(m.max()), tol=1.0,
                 detail="largest deviation at r=%g" % rr[int(numpy.argmax(m))])
         try:
-            rr, y, c = _call_forms(lambda r: turb.phase_covariance(r, r0, L0), form, R.tolist())
+            rr, y, c = _call_forms(lambda r: turb.phase_covariance(r, r0, L0), form, Rf.tolist())
         except ValueError as e:
             o.check("forms_agree", False, sub="phase_covariance:" + form, detail=str(e))
             continue
         o.stat("lib_calls", c)
-        base = B[numpy.isin(R, rr)]
+        base = Bf[numpy.isin(Rf, rr)]
         m = numpy.abs(y - base) / (TOL_F32 * B0ref)
         m = numpy.where(numpy.isfinite(m), m, numpy.inf)
         o.check("forms_agree", bool(m.max() <= 1.0), sub="phase_covariance:" + form, measure=float(m.max()), tol=1.0,
                 detail="largest deviation at r=%g" % rr[int(numpy.argmax(m))])
 
-    # monotone along the sorted ladder
-    dD = numpy.diff(D)
-    o.check("D_non_decreasing", bool(numpy.all(dD >= -TOL_EXACT * D[1:])), measure=float(max(0.0, (-dD / D[1:]).max())),
-            tol=TOL_EXACT, n=len(dD), detail="first decrease after r=%g" % R[int(numpy.argmin(dD))])
-    dB = numpy.diff(B)
+    # monotone along the sorted ladder (whole ladder; rounding of the cancelling closed form allowed for)
+    dD = numpy.diff(Df)
+    mD = -dD / (TOL_EXACT * numpy.abs(Df[1:]) + TOL_ROUND * B0ref)
+    mD = numpy.where(numpy.isfinite(mD), mD, numpy.inf)
+    o.check("D_non_decreasing", bool(numpy.all(mD <= 1.0)), measure=float(max(0.0, mD.max())),
+            tol=1.0, n=len(dD), detail="first decrease after r=%g" % Rf[int(numpy.argmax(mD))])
+    dB = numpy.diff(Bf)
+    dB = numpy.where(numpy.isfinite(dB), dB, numpy.inf)
     o.check("B_non_increasing", bool(numpy.all(dB <= TOL_F32 * B0ref)), measure=float(max(0.0, dB.max() / B0ref)),
-            tol=TOL_F32, n=len(dB), detail="first increase after r=%g" % R[int(numpy.argmax(dB))])
+            tol=TOL_F32, n=len(dB), detail="first increase after r=%g" % Rf[int(numpy.argmax(dB))])
 
     # saturation at twice the variance 0.0863 (L0/r0)^(5/3)
     sat = 2.0 * vk.PUB_VAR * (L0 / r0) ** (5.0 / 3.0)
@@ -509,19 +656,21 @@ def _forms(p):
         o.close("variance_constant", abs(B0 / (0.5 * sat) - 1.0), TOL_CONST,
                 detail="B(0)=%r, 0.0863 (L0/r0)^(5/3)=%r" % (B0, 0.5 * sat))
 
-    # exact r0^(-5/3) scaling
+    # exact r0^(-5/3) scaling (same function, same constants: an identity up to rounding)
     for c in SCALE_C:
-        Dc = numpy.asarray(sc.structure_function_vk(R.copy(), r0 * c, L0), dtype=float)
-        Bc = numpy.asarray(turb.phase_covariance(R.copy(), r0 * c, L0), dtype=float)
+        Dc = numpy.asarray(sc.structure_function_vk(Rf.copy(), r0 * c, L0), dtype=float)
+        Bc = numpy.asarray(turb.phase_covariance(Rf.copy(), r0 * c, L0), dtype=float)
         o.stat("lib_calls", 2)
-        o.close("r0_scaling_D", float(numpy.max(numpy.abs(Dc * c ** (5.0 / 3.0) - D) / (TOL_EXACT * D + TOL_ROUND * B0ref))), 1.0,
+        o.close("r0_scaling_D", float(numpy.max(numpy.abs(Dc * c ** (5.0 / 3.0) - Df) / (TOL_EXACT * numpy.abs(Df) + TOL_ROUND * B0ref))), 1.0,
                 sub="c=%g" % c)
-        o.close("r0_scaling_B", float(numpy.max(numpy.abs(Bc * c ** (5.0 / 3.0) - B)) / B0ref), 2 * TOL_F32, sub="c=%g" % c)
+        o.close("r0_scaling_B", float(numpy.max(numpy.abs(Bc * c ** (5.0 / 3.0) - Bf)) / B0ref), 2 * TOL_F32, sub="c=%g" % c)
     Kc = numpy.asarray(sc.structure_function_kolmogorov(R.copy(), r0), dtype=float)
     o.stat("lib_calls", 1)
-    o.close("kolmogorov_vs_textbook", float(numpy.max(numpy.abs(Kc / vk.kolmogorov(R, r0) - 1.0))), 1e-3)
+    # both within the rounding of the published constant (6.88 vs 6.8839 = 5.7e-4): which rounding a module uses
+    # is not part of the statement
+    o.close("kolmogorov_vs_textbook", float(numpy.max(numpy.abs(Kc / vk.kolmogorov(R, r0) - 1.0))), TOL_CONST)
     o.close("kolmogorov_published_constant", float(numpy.max(numpy.abs(Kc / vk.kolmogorov(R, r0, vk.PUB_KOLMO) - 1.0))),
-            TOL_EXACT)
+            TOL_CONST)
     o.outcome(numpy.round(D / Dref, 9))
     return o
 
@@ -547,7 +696,8 @@ def _kolmo(p):
         inc = numpy.diff(gap, axis=0)
         o.check("kolmogorov_gap_non_increasing", bool(numpy.all(inc <= 1e-9)), sub=name, measure=float(inc.max()),
                 tol=1e-9, n=inc.size, detail="gap rows (L0 ladder) x cols (r): %s" % numpy.round(gap, 5).tolist())
-        o.close("kolmogorov_limit_reached", float(gap[-1].max()), 2e-2, sub=name,
+        # floor 1.485 (r/L0)^(1/3) = 1.485e-2 at r = 1, L0 = 1e6, plus 2e-3 for each of the two rounded constants
+        o.close("kolmogorov_limit_reached", float(gap[-1].max()), 2.5e-2, sub=name,
                 detail="gap at L0=%g: %s" % (ladder[-1], gap[-1].tolist()))
         worst = 0.0
         n = 0
@@ -555,11 +705,83 @@ def _kolmo(p):
             sel = (r / L0 <= 1e-3) & (r / L0 >= RANGE_MIN)
             if sel.any():
                 lead = 1.0 - 1.485 * (r[sel] / L0) ** (1.0 / 3.0)
-                worst = max(worst, float(numpy.max(numpy.abs(ratio[k][sel] - lead))))
+                # rounding of the cancelling closed form, 1e-13 B(0), relative to the Kolmogorov value it is divided by
+                tol_i = TOL_CONST + TOL_ROUND * vk.variance(r0, L0) / vk.kolmogorov(r[sel], r0)
+                worst = max(worst, float(numpy.max(numpy.abs(ratio[k][sel] - lead) / tol_i)))
                 n += int(sel.sum())
-        o.check("kolmogorov_leading_correction", worst <= TOL_CONST, sub=name, measure=worst, tol=TOL_CONST, n=max(n, 1))
+        o.check("kolmogorov_leading_correction", worst <= 1.0, sub=name, measure=worst, tol=1.0, n=max(n, 1))
     o.outcome(numpy.round(gap, 6))
     return o
+
+
+def _kernel_structure_functions(kl, sc, o, L0):
+    """The structure function the KL kernel really uses, for every tag it accepts.  A kernel row is (a constant
+    times) the DFT over the azimuth of the structure function at the chord lengths between two radii, so the inverse
+    DFT recovers the values used.  The azimuthal sampling (number of angles = last axis of the kernel, chord =
+    0.5 sqrt(ri^2 + rj^2 - 2 ri rj cos th)) is VALIDATED on the library under test with the Kolmogorov tag, whose
+    values must be a pure 5/3 power of the chord; the normalisation is never assumed: it cancels in the ratio
+    von Karman tag / Kolmogorov tag, compared with the same ratio of the slope-covariance copies."""
+    ri, nr = 0.2, 6
+    rad = numpy.asarray(kl.gkl_radii(ri, nr), dtype=float)
+    kol = numpy.asarray(kl.gkl_kernel(ri, nr, rad.copy(), "kolmogorov", None))
+    o.stat("lib_calls", 2)
+    outers = sorted(set([2.0, 5.0, float(L0)]))
+    vk_tags, kol_tags = ("vonKarman", "karman", "vk"), ("kolstf",)
+    kers = {}
+    for tag in kol_tags:
+        kers[(tag, None)] = numpy.asarray(kl.gkl_kernel(ri, nr, rad.copy(), tag, None))
+    for outer in outers:
+        for tag in vk_tags:
+            kers[(tag, outer)] = numpy.asarray(kl.gkl_kernel(ri, nr, rad.copy(), tag, outer))
+    o.stat("lib_calls", len(kers))
+    shp = kol.shape
+    if rad.shape != (nr,) or len(shp) != 3 or shp[:2] != (nr, nr) or shp[2] < 4 or any(k.shape != shp for k in kers.values()):
+        o.stat("kl_kernel_not_claimed", 1)
+        o.note("kl_kernel_not_claimed", "kernel shapes %s" % ([shp] + [k.shape for k in kers.values()],))
+        return
+    # tags that name the same structure function give the same kernel (whatever the discretisation); tolerance of the
+    # constants' rounding, so that an alias may be served by another correct copy
+    scale_k = max(float(numpy.max(numpy.abs(kol))), 1e-300)
+    for tag in kol_tags:
+        o.close("kl_kernel_alias_tags_agree", float(numpy.max(numpy.abs(kers[(tag, None)] - kol))) / scale_k, TOL_CONST, sub="tag=%s" % tag)
+    for outer in outers:
+        base = kers[("vonKarman", outer)]
+        sc_ = max(float(numpy.max(numpy.abs(base))), 1e-300)
+        for tag in vk_tags[1:]:
+            o.close("kl_kernel_alias_tags_agree", float(numpy.max(numpy.abs(kers[(tag, outer)] - base))) / sc_, TOL_CONST,
+                    sub="tag=%s:outerscale=%g" % (tag, outer))
+    nth = shp[2]
+    th = numpy.arange(nth) * 2 * numpy.pi / nth
+    ii, jj = numpy.tril_indices(nr)
+    chord = 0.5 * numpy.sqrt(numpy.maximum(rad[ii, None] ** 2 + rad[jj, None] ** 2 - 2 * rad[ii, None] * rad[jj, None] * numpy.cos(th)[None, :], 0.0))
+    used = lambda ker: numpy.real(numpy.fft.ifft(ker[ii, jj, :], axis=1))
+    u_kol = used(kol)
+    w = chord ** (5.0 / 3.0)
+    alpha = float((u_kol * w).sum() / (w * w).sum())
+    resid = float(numpy.max(numpy.abs(u_kol - alpha * w))) / max(abs(alpha) * float(w.max()), 1e-300)
+    if not (math.isfinite(resid) and resid <= 1e-9 and alpha != 0.0):
+        o.stat("kl_kernel_not_claimed", 1)
+        o.note("kl_kernel_not_claimed", "the Kolmogorov kernel is not the azimuthal DFT of a 5/3 power law of the chord "
+               "on %d uniform angles (residual %.3g)" % (nth, resid))
+        return
+    pos = chord > 1e-6                      # chord 0 (coincident points): 0/0
+    kref = numpy.asarray(sc.structure_function_kolmogorov(chord[pos].copy(), 1), dtype=float)
+    o.stat("lib_calls", 1)
+    for tag in kol_tags:
+        got = used(kers[(tag, None)])[pos] / u_kol[pos]
+        o.close("kl_kernel_uses_the_common_structure_function", float(numpy.max(numpy.abs(got - 1.0))) / TOL_CONST, 1.0,
+                sub="tag=%s:outerscale=%g" % (tag, L0))
+    for outer in outers:
+        want = numpy.asarray(sc.structure_function_vk(chord[pos].copy(), 1, outer), dtype=float) / kref
+        o.stat("lib_calls", 1)
+        for tag in vk_tags:
+            got = used(kers[(tag, outer)])[pos] / u_kol[pos]
+            m = numpy.abs(got / want - 1.0)
+            m = numpy.where(numpy.isfinite(m), m, numpy.inf)
+            o.close("kl_kernel_uses_the_common_structure_function", float(m.max()) / TOL_CONST, 1.0,
+                    sub="tag=%s:outerscale=%g" % (tag, outer),
+                    detail="structure function inside the kernel / Kolmogorov kernel vs structure_function_vk / "
+                    "structure_function_kolmogorov at the chords; worst at chord %g" % chord[pos][int(numpy.argmax(m))])
 
 
 def _kl(p):
@@ -569,18 +791,29 @@ def _kl(p):
     L0, tier = p["L0"], p["tier"]
     Rall = numpy.array(_R(tier))
     R = Rall[Rall / L0 >= RANGE_MIN]
-    a = numpy.asarray(kl.stf_vonKarman(R.copy(), L0), dtype=float)
-    b = numpy.asarray(sc.structure_function_vk(R.copy(), 1, L0), dtype=float)
+    # whole ladder incl. the separations below the range for the clauses with the absolute rounding allowance
+    Rf = numpy.array(sorted(set(Rall.tolist()) | set(f * L0 for f in TINY_FACTORS)))
+    B0 = vk.variance(1.0, L0)
+    af = numpy.asarray(kl.stf_vonKarman(Rf.copy(), L0), dtype=float)
+    bf = numpy.asarray(sc.structure_function_vk(Rf.copy(), 1, L0), dtype=float)
+    a = af[numpy.isin(Rf, R)]
     o.stat("lib_calls", 2)
-    o.close("kl_vk_copy_identical", float(numpy.max(numpy.abs(a - b) / (TOL_EXACT * numpy.abs(b) + TOL_ROUND * vk.variance(1.0, L0)))), 1.0,
-            detail="stf_vonKarman(r,L0) vs structure_function_vk(r,1,L0), worst at r=%g"
-            % R[int(numpy.argmax(numpy.abs(a / b - 1.0)))])
+    # two modules, two copies of the constants: equal up to the constants' rounding (today bit-identical)
+    m = numpy.abs(af - bf) / (TOL_CONST * numpy.abs(bf) + TOL_ROUND * B0)
+    m = numpy.where(numpy.isfinite(m), m, numpy.inf)
+    o.close("kl_vk_copy_identical", float(m.max()), 1.0,
+            detail="stf_vonKarman(r,L0) vs structure_function_vk(r,1,L0), worst at r=%g" % Rf[int(numpy.argmax(m))])
+    m = numpy.abs(af - vk.structure_function(Rf, 1.0, L0)) / (TOL_CONST * numpy.abs(af) + TOL_ROUND * B0)
+    m = numpy.where(numpy.isfinite(m), m, numpy.inf)
+    o.close("kl_vk_vs_textbook", float(m.max()), 1.0, detail="worst at r=%g" % Rf[int(numpy.argmax(m))])
     ka = numpy.asarray(kl.stf_kolmogorov(Rall.copy()), dtype=float)
     kb = numpy.asarray(sc.structure_function_kolmogorov(Rall.copy(), 1), dtype=float)
     o.stat("lib_calls", 2)
-    o.close("kl_kolmogorov_copy", float(numpy.max(numpy.abs(ka / kb - 1.0))), 1e-3)
-    o.close("kl_kolmogorov_vs_textbook", float(numpy.max(numpy.abs(ka / vk.kolmogorov(Rall, 1.0) - 1.0))), 1e-3)
+    o.close("kl_kolmogorov_copy", float(numpy.max(numpy.abs(ka / kb - 1.0))), TOL_CONST)
+    o.close("kl_kolmogorov_vs_textbook", float(numpy.max(numpy.abs(ka / vk.kolmogorov(Rall, 1.0) - 1.0))), TOL_CONST)
+    # truncated series: declared domain r/L0 <= 0.1 (see ASSUMPTIONS)
     sel = R / L0 <= 0.1
+    o.note("stf_vonKarman_yao_compared_for_r_over_L0_up_to", 0.1)
     if sel.any():
         y = numpy.asarray(kl.stf_vonKarman_yao(R[sel].copy(), L0), dtype=float)
         o.stat("lib_calls", 1)
@@ -588,43 +821,18 @@ def _kl(p):
         o.close("kl_yao_series", float(numpy.max(numpy.abs(y / ref - 1.0))), 1e-2,
                 detail="worst at r=%g" % R[sel][int(numpy.argmax(numpy.abs(y / ref - 1.0)))])
         o.close("kl_yao_vs_kl_vk", float(numpy.max(numpy.abs(y / a[sel] - 1.0))), 1e-2)
-    # the structure function the KL kernel really uses, for every tag it accepts: recovered from the kernel itself
-    # (the kernel is fnorm 2 pi / nth times the FFT over the azimuth of the structure function at the chord lengths)
-    ri, nr = 0.2, 6
-    rad = numpy.asarray(kl.gkl_radii(ri, nr), dtype=float)
-    nth = 5 * nr
-    fnorm = 0.5 * (-1.0) / (2 * numpy.pi * (1 - ri ** 2))
-    th = numpy.arange(nth) * 2 * numpy.pi / nth
-    for outer in sorted(set([2.0, 5.0, float(L0)])):
-        for tag in ("vonKarman", "karman", "vk", "kolmogorov", "kolstf"):
-            ker = numpy.asarray(kl.gkl_kernel(ri, nr, rad.copy(), tag, outer if tag[0] in "vk" and tag != "kolmogorov" and tag != "kolstf" else None))
-            o.stat("lib_calls", 1)
-            worst = 0.0
-            for i in range(nr):
-                for j in range(i + 1):
-                    used = numpy.real(numpy.fft.ifft(ker[i, j, :])) / (fnorm * 2 * numpy.pi / nth)
-                    chord = 0.5 * numpy.sqrt(numpy.maximum(rad[i] ** 2 + rad[j] ** 2 - 2 * rad[i] * rad[j] * numpy.cos(th), 0.0))
-                    if tag in ("kolmogorov", "kolstf"):
-                        want = numpy.asarray(sc.structure_function_kolmogorov(chord.copy(), 1), dtype=float)
-                        tol_ = 1e-3
-                    else:
-                        want = numpy.asarray(sc.structure_function_vk(chord.copy(), 1, outer), dtype=float)
-                        tol_ = 2e-3
-                    scale = max(float(numpy.max(numpy.abs(want))), 1e-300)
-                    worst = max(worst, float(numpy.max(numpy.abs(used - want))) / scale / tol_)
-            o.close("kl_kernel_uses_the_common_structure_function", worst, 1.0, sub="tag=%s:outerscale=%g" % (tag, outer))
+    _kernel_structure_functions(kl, sc, o, L0)
     # forms for the KL copy
     for form in FORMS:
         try:
-            rr, y, c = _call_forms(lambda r: kl.stf_vonKarman(r, L0), form, R.tolist())
+            rr, y, c = _call_forms(lambda r: kl.stf_vonKarman(r, L0), form, Rf.tolist())
         except ValueError as e:
             o.check("forms_agree", False, sub="stf_vonKarman:" + form, detail=str(e))
             continue
         o.stat("lib_calls", c)
         if len(rr) == 0:
             continue
-        base = a[numpy.isin(R, rr)]
-        B0 = vk.variance(1.0, L0)
+        base = af[numpy.isin(Rf, rr)]
         tol = (1e-5 * numpy.abs(base) + TOL_F32 * B0) if form == "float32_array" else (TOL_EXACT * numpy.abs(base) + TOL_ROUND * B0)
         m = numpy.abs(y - base) / tol
         m = numpy.where(numpy.isfinite(m), m, numpy.inf)
@@ -645,97 +853,224 @@ def _psd(p):
         phasescreen.ft_phase_screen(sib[0], N, sib[1], sib[2], sib[3], seed=SeqGenerator(numpy.ones(2 * N * N)))
         phasescreen.ft_sh_phase_screen(sib[0], N, sib[1], sib[2], sib[3], seed=SeqGenerator(numpy.ones(2 * N * N + 54)))
     o.stat("lib_calls", 10)
-    P, f, calls, zmax = _extract_psd(N, delta, r0, L0, l0, o)
-    o.check("screen_draw_requests", calls == [(N, N), (N, N)], detail="normal() requests %s" % (calls,))
-    o.close("screen_zero_draws_zero_screen", zmax, 0.0)
-    shape = vk.screen_psd(f, r0, L0, l0, 1.0)
-    live = numpy.ones((N, N), bool)
-    live[N // 2, N // 2] = False
-    c = P[live] / shape[live]
-    cm = float(numpy.mean(c))
-    o.close("screen_psd_is_von_karman", float((c.max() - c.min()) / cm), 1e-10,
-            detail="PSD samples / [r0^(-5/3) exp(-(f/fm)^2) (f^2+1/L0^2)^(-11/6)] range %r..%r" % (c.min(), c.max()))
-    o.close("screen_psd_dc_removed", float(P[N // 2, N // 2]), 0.0)
+    refs = _refs(N)
+    try:
+        P, f, hi = _extract_psd(N, delta, r0, L0, l0, o, refs)
+    except _NotClaimed as e:
+        o.stat("screen_psd_not_claimed", 1)
+        o.note("screen_psd_not_claimed", str(e))
+        return o
+    o.note("normal_requests_fft_screen", str(hi["calls"]))
+    o.close("screen_zero_draws_zero_screen", hi["zmax"], 0.0)
+    cm, spread, c = _psd_constant(P, f, r0, L0, l0)
+    o.close("screen_psd_is_von_karman", spread, 1e-10,
+            detail="power per DFT bin / [del_f^2 r0^(-5/3) exp(-(f/fm)^2) (f^2+1/L0^2)^(-11/6)] range %r..%r" % (c.min(), c.max()))
+    # the zero-frequency bin does not enter the structure function: observed, not constrained
+    o.note("screen_psd_dc_bin", float(P[0, 0]))
     o.close("screen_psd_constant", abs(cm / vk.C_PHI - 1.0), TOL_HANKEL, detail="constant %r, exact %r" % (cm, vk.C_PHI))
     o.note("screen_psd_constant", cm)
-    # sub-harmonic generator: 2 N^2 draws for the FFT screen, then 3 x (9 + 9)
-    n = 2 * N * N + 54
-    g0 = SeqGenerator(numpy.zeros(n))
-    phasescreen.ft_sh_phase_screen(r0, N, delta, L0, l0, seed=g0)
-    o.stat("lib_calls", 1)
-    want = [(N, N), (N, N)] + [(3, 3)] * 6
-    o.check("screen_draw_requests", list(g0.calls) == want, sub="subharmonic", detail="normal() requests %s" % (g0.calls,))
-    if list(g0.calls) != want:
+    # sub-harmonic generator: its pixel-pair structure function is that of the FFT screen with the SAME parameters
+    # plus that of the three 3x3 grids of sub-harmonic waves of the same spectrum (same constant)
+    try:
+        sh = _second_moments(lambda s_: phasescreen.ft_sh_phase_screen(r0, N, delta, L0, l0, seed=s_), N, refs, o)
+    except _NotClaimed as e:
+        o.stat("subharmonic_psd_not_claimed", 1)
+        o.note("subharmonic_psd_not_claimed", str(e))
         return o
-    coords = (numpy.arange(N) - N / 2.0) * delta
-    x, y = numpy.meshgrid(coords, coords)
-    D = N * delta
-    cs, worst_res = [], 0.0
-    for lvl in range(1, 4):
-        del_f = 1.0 / (3 ** lvl * D)
-        for part in (0, 1):
-            for idx in range(9):
-                i, j = divmod(idx, 3)
-                k = 2 * N * N + (lvl - 1) * 18 + part * 9 + idx
-                t = phasescreen.ft_sh_phase_screen(r0, N, delta, L0, l0, seed=unit_draws(n, k))
-                o.stat("lib_calls", 1)
-                if (i, j) == (1, 1):
-                    o.close("screen_psd_dc_removed", float(numpy.max(numpy.abs(t))), 0.0, sub="subharmonic")
-                    continue
-                fxx, fyy = (j - 1) * del_f, (i - 1) * del_f
-                ph = 2.0 * numpy.pi * (fxx * x + fyy * y)
-                pat = numpy.cos(ph) if part == 0 else -numpy.sin(ph)
-                pat = pat - pat.mean()
-                amp = float((t * pat).sum() / (pat * pat).sum())
-                worst_res = max(worst_res, float(numpy.max(numpy.abs(t - amp * pat)) / abs(amp)))
-                cs.append((amp / del_f) ** 2 / float(vk.screen_psd(math.hypot(fxx, fyy), r0, L0, l0, 1.0)))
-    cs = numpy.array(cs)
-    o.close("subharmonic_response_is_unit_wave", worst_res, 1e-9)
-    o.close("subharmonic_psd_same_model", float(numpy.max(numpy.abs(cs / cm - 1.0))), 1e-9,
-            detail="sub-harmonic constants %r..%r vs FFT-screen constant %r" % (cs.min(), cs.max(), cm))
+    o.note("normal_requests_subharmonic_screen", str(sh["calls"]))
+    o.close("screen_zero_draws_zero_screen", sh["zmax"], 0.0, sub="subharmonic")
+    lo = _subharmonic_D(N, delta, r0, L0, l0, cm, refs)
+    # 1e-9 of the sub-harmonic part; 1e-12 of the total is the rounding of the difference of the two sums
+    tol = 1e-9 * float(lo.max()) + 1e-12 * float(sh["D"].max())
+    dev = numpy.abs(sh["D"] - hi["D"] - lo)
+    k = numpy.unravel_index(int(numpy.argmax(dev)), dev.shape)
+    o.close("subharmonic_psd_same_model", float(dev.max()) / tol, 1.0,
+            detail="E(s(x)-s(x0))^2 of ft_sh_phase_screen minus that of ft_phase_screen at pixel %s, reference pixel %s: "
+            "%r, sub-harmonic waves of the same spectrum (constant %r): %r" % (k[1:], refs[k[0]], float((sh["D"] - hi["D"])[k]), cm, float(lo[k])))
     o.outcome(numpy.round(c, 9))
     return o
 
 
+SPOT_CFG = {"fft": (0.05, 0.15, 20.0, 0.01), "sh": (0.05, 0.15, 40.0, 0.01)}     # (delta, r0, L0, l0)
+
+
+def _spot_bins(N):
+    """DFT bins (row, col) probed at large N: next to DC, low, mid, the Nyquist row, next to the Nyquist corner"""
+    return [(0, 1), (1, 0), (1, 1), (-1, 2), (3, -7), (N // 4, 5), (-N // 2, 3), (N // 2 - 1, N // 2 - 1)]
+
+
+def _psdspot(p):
+    """size classes beyond the exhaustive ones: the spectrum at N = 1024 (FFT screen) / N = 256 (sub-harmonics) equals
+    the one observed with ALL draws at N = 8 for the same delta, r0, L0, l0.  Only a few draws can be pulsed, so the
+    association draw <-> DFT bin is taken from the small screens and its observable consequences are tested first
+    (guard); if they do not hold the probe is recorded as not claimed."""
+    o = Out()
+    from aotools.turbulence import phasescreen
+    N = p["N"]
+    delta, r0, L0, l0 = SPOT_CFG[p["what"]]
+    try:
+        Ps, fs, ms = _extract_psd(8, delta, r0, L0, l0, o)
+        cm, spread, _ = _psd_constant(Ps, fs, r0, L0, l0)
+        if not spread <= 1e-10:
+            raise _NotClaimed("spectrum at N = 8 is not the model (reported by the psd cases)")
+        if p["what"] == "fft":
+            _spot_fft(o, phasescreen, N, delta, r0, L0, l0, cm)
+        else:
+            _spot_sh(o, phasescreen, N, delta, r0, L0, l0, cm)
+    except _NotClaimed as e:
+        o.stat("screen_psd_spot_not_claimed", 1)
+        o.note("screen_psd_spot_not_claimed", str(e))
+    return o
+
+
+def _spot_fft(o, phasescreen, N, delta, r0, L0, l0, cm):
+    gen = lambda s_: phasescreen.ft_phase_screen(r0, N, delta, L0, l0, seed=s_)
+    g0 = SeqGenerator(())
+    z0 = _screen(gen, g0)
+    n = g0.consumed
+    o.stat("lib_calls", 1)
+    if n != 2 * N * N or z0.shape != (N, N) or float(numpy.max(numpy.abs(z0))) != 0.0:
+        raise _NotClaimed("%d draws, screen %s at N = %d" % (n, z0.shape, N))
+    del_f = 1.0 / (N * delta)
+    fx = numpy.fft.fftfreq(N, d=delta)
+    worst, nb = 0.0, 0
+    for br, bc in _spot_bins(N):
+        b, mb = (br % N, bc % N), ((-br) % N, (-bc) % N)
+        # at small N the draw that feeds DFT bin (row, col) is number ((row + N/2) mod N) N + (col + N/2) mod N,
+        # N^2 further for the imaginary part; verified below on the responses themselves
+        idx = lambda q: ((q[0] + N // 2) % N) * N + (q[1] + N // 2) % N
+        power = 0.0
+        for j in (idx(b), idx(b) + N * N, idx(mb), idx(mb) + N * N):
+            F = numpy.fft.fft2(_screen(gen, unit_draws(n, j)))
+            o.stat("lib_calls", 1)
+            e = numpy.abs(F) ** 2
+            tot = float(e.sum())
+            inside = float(e[b] + e[mb])
+            if not (tot > 0.0 and (tot - inside) <= 1e-18 * tot):
+                raise _NotClaimed("response to draw %d is not confined to the DFT bins +-%s" % (j, b))
+            power += float(e[b])
+        got = power / (N ** 4 * del_f ** 2)
+        want = float(vk.screen_psd(math.hypot(fx[b[0]], fx[b[1]]), r0, L0, l0, cm))
+        o.close("screen_psd_independent_of_size", abs(got / want - 1.0), 1e-9, sub="bin=%d,%d" % (br, bc),
+                detail="N=%d: power in DFT bin %s / del_f^2 = %r, spectrum observed at N=8 (constant %r): %r" % (N, b, got, cm, want))
+        nb += 1
+    o.outcome([N, nb])
+
+
+def _spot_sh(o, phasescreen, N, delta, r0, L0, l0, cm):
+    gen_sh = lambda s_: phasescreen.ft_sh_phase_screen(r0, N, delta, L0, l0, seed=s_)
+    gen_hi = lambda s_: phasescreen.ft_phase_screen(r0, N, delta, L0, l0, seed=s_)
+    g0 = SeqGenerator(())
+    z0 = _screen(gen_sh, g0)
+    n = g0.consumed
+    g1 = SeqGenerator(())
+    _screen(gen_hi, g1)
+    nh = g1.consumed
+    o.stat("lib_calls", 2)
+    if nh != 2 * N * N or n != nh + 54 or z0.shape != (N, N) or float(numpy.max(numpy.abs(z0))) != 0.0:
+        raise _NotClaimed("%d / %d draws at N = %d" % (n, nh, N))
+    # guard: the first 2 N^2 draws are those of the FFT screen (probed on a few of them) ...
+    for j in (0, 1, N + 3, N * N // 2 + N // 2 + 1, N * N - 1, N * N + 5, 2 * N * N - 2):
+        a = _screen(gen_sh, unit_draws(n, j))
+        b = _screen(gen_hi, unit_draws(nh, j))
+        o.stat("lib_calls", 2)
+        sc_ = float(numpy.max(numpy.abs(b)))
+        if not (float(numpy.max(numpy.abs(a - b))) <= 1e-9 * sc_ or sc_ == 0.0 and float(numpy.max(numpy.abs(a))) == 0.0):
+            raise _NotClaimed("draw %d of ft_sh_phase_screen is not draw %d of ft_phase_screen" % (j, j))
+    # ... so the last 54 are the sub-harmonic waves: their pixel-pair structure function against the model
+    refs = [(0, 0), (N // 2, N // 2), (N - 1, 1), (3, N - 2)]
+    D = numpy.zeros((len(refs), N, N))
+    for j in range(nh, n):
+        t = _screen(gen_sh, unit_draws(n, j))
+        o.stat("lib_calls", 1)
+        for k, (ri, ci) in enumerate(refs):
+            D[k] += (t - t[ri, ci]) ** 2
+    lo = _subharmonic_D(N, delta, r0, L0, l0, cm, refs)
+    o.close("subharmonic_psd_independent_of_size", float(numpy.max(numpy.abs(D - lo))) / float(lo.max()), 1e-9,
+            detail="N=%d: E(s(x)-s(x0))^2 of the 54 sub-harmonic draws vs the model with the constant observed at N=8" % N)
+    o.outcome([N, n])
+
+
+GRAM64_REL = 1e-10     # eigenvalue allowance of the float64 copies, relative to the largest eigenvalue
+
+
 def _gram(p):
     """Gram matrices of phase covariances between arbitrary points are positive semi-definite:
-    every subset (size >= 2) of the 3x3 lattice / every 4-subset of the 4x4 lattice"""
+    every subset (size >= 2) of the 3x3 lattice / every 4-subset of the 4x4 lattice / every subset of an irregular
+    set (collinear, nearly coincident and far points).  phase_covariance itself (float32, allowance 1e-5 of the
+    largest eigenvalue) and, in float64, the structure-function copies: with D = 2(B(0) - B) the matrix
+    C_ij = (D(x_i-x_0) + D(x_j-x_0) - D(x_i-x_j)) / 2 is the covariance of the phase differences to x_0."""
     o = Out()
     turb, sc, kl = _funcs()
     n, sp, r0, L0 = p["n"], p["sp"], p["r0"], p["L0"]
-    pts = numpy.array([(i * sp, j * sp) for i in range(n) for j in range(n)], dtype=float)
-    if n == 3:
-        subsets = [s for k in range(2, 10) for s in itertools.combinations(range(9), k)]
+    if n == 0:
+        pts = numpy.array(GRAMX_PTS, dtype=float) * sp
+        subsets = [s for k in range(2, len(pts) + 1) for s in itertools.combinations(range(len(pts)), k)]
     else:
-        subsets = list(itertools.combinations(range(16), 4))
-    worst, bad, nsym = float("inf"), [], 0
+        pts = numpy.array([(i * sp, j * sp) for i in range(n) for j in range(n)], dtype=float)
+        if n == 3:
+            subsets = [s for k in range(2, 10) for s in itertools.combinations(range(9), k)]
+        else:
+            subsets = list(itertools.combinations(range(16), 4))
+    B0ref = vk.variance(r0, L0)
+    copies = {"structure_function_vk": lambda d: sc.structure_function_vk(d, r0, L0),
+              "stf_vonKarman": lambda d: numpy.asarray(kl.stf_vonKarman(d / r0, L0 / r0))}
+    worst, bad, nsym = float("inf"), [], 0.0
+    worst64 = {k: 0.0 for k in copies}
+    bad64 = {k: [] for k in copies}
     for s in subsets:
         q = pts[list(s)]
         d = numpy.hypot(q[:, None, 0] - q[None, :, 0], q[:, None, 1] - q[None, :, 1])
-        G = numpy.asarray(turb.phase_covariance(d, r0, L0), dtype=float)
-        if not numpy.all(numpy.isfinite(G)):
+        G = numpy.asarray(turb.phase_covariance(d.copy(), r0, L0), dtype=float)
+        if not numpy.all(numpy.isfinite(G)) or G.shape != d.shape:
             bad.append((s, float("nan")))
-            continue
-        if not numpy.array_equal(G, G.T):
-            nsym += 1
-        w = numpy.linalg.eigvalsh(0.5 * (G + G.T))
-        ratio = float(w[0] / w[-1])
-        worst = min(worst, ratio)
-        if not ratio >= TOL_GRAM:
-            bad.append((s, ratio))
-    o.stat("lib_calls", len(subsets))
+        else:
+            # the same separation at the mirrored position: equal up to (float32) rounding
+            nsym = max(nsym, float(numpy.max(numpy.abs(G - G.T))) / float(numpy.max(numpy.abs(G))))
+            w = numpy.linalg.eigvalsh(0.5 * (G + G.T))
+            ratio = float(w[0] / w[-1])
+            worst = min(worst, ratio)
+            if not ratio >= TOL_GRAM:
+                bad.append((s, ratio))
+        for name, f in copies.items():
+            Dm = numpy.asarray(f(d.copy()), dtype=float)
+            if Dm.shape != d.shape or not numpy.all(numpy.isfinite(Dm)):
+                bad64[name].append((s, float("nan")))
+                continue
+            Dm = 0.5 * (Dm + Dm.T)
+            C = 0.5 * (Dm[1:, :1] + Dm[:1, 1:] - Dm[1:, 1:])
+            w = numpy.linalg.eigvalsh(C)
+            # rounding of the cancelling closed form: 1e-13 B(0) per entry
+            m = -float(w[0]) / (GRAM64_REL * abs(float(w[-1])) + len(s) * TOL_ROUND * B0ref)
+            worst64[name] = max(worst64[name], m)
+            if not m <= 1.0:
+                bad64[name].append((s, m))
+    o.stat("lib_calls", 3 * len(subsets))
     o.check("gram_psd", not bad, measure=-worst, tol=-TOL_GRAM, n=len(subsets),
             detail=None if not bad else "%d subsets fail, e.g. points %s: lambda_min/lambda_max=%r" % (len(bad), bad[0][0], bad[0][1]))
-    o.check("gram_symmetric", nsym == 0, n=len(subsets), detail="%d Gram matrices not symmetric" % nsym)
+    o.check("gram_symmetric", nsym <= 1e-5, measure=nsym, tol=1e-5, n=len(subsets),
+            detail="largest |G - G^T| / max|G| = %r" % nsym)
+    for name in copies:
+        b = bad64[name]
+        o.check("gram_psd_float64_copies", not b, sub=name, measure=worst64[name], tol=1.0, n=len(subsets),
+                detail=None if not b else "%d subsets fail, e.g. points %s: -lambda_min / allowance = %r" % (len(b), b[0][0], b[0][1]))
     o.outcome([n, sp, r0, L0, round(worst, 9)])
     return o
 
 
-LEVEL_TEXT = ("Every point of the product separation ladder (13 values quick / 45 thorough, plus 0 and r = 10, 100, "
-              "1e4 L0) x r0 (4 / 8) x L0 (6 / 12) x seven input forms is evaluated through all five closed forms and "
-              "compared with 2(B(0)-B), the textbook formulas, the Hankel transform of the spectrum observed in the "
-              "real screen generators (all unit Gaussian draws for N up to 8 / 16) and each other; Gram matrices "
-              "of all 502 subsets of a 3x3 lattice and all 1820 four-point subsets of a 4x4 lattice at 3 spacings.")
+LEVEL_TEXT = ("Every point of the product separation ladder (13 values quick / 45 thorough, plus 0, r = 10, 100, 1e4 L0 and "
+              "seven separations from 1e-9 L0 down to 1e-200 L0) x r0 (4 / 8) x L0 (6 / 12) x seven input forms is evaluated "
+              "through all five closed forms and compared with 2(B(0)-B), the textbook formulas, the Hankel transform of the "
+              "spectrum observed in the real screen generators and each other. The spectrum is read off the exact second "
+              "moments of the screens (every consumed Gaussian draw pulsed, N up to 16 / 32, six configurations incl. outer "
+              "scale below the screen size; sub-harmonic screens through their pixel-pair structure function), with spot "
+              "probes at N = 1024 / 256. Gram matrices of all 502 subsets of a 3x3 lattice, all 1820 four-point subsets of a "
+              "4x4 lattice and all 247 subsets of an irregular 8-point set at 3 spacings, for phase_covariance (float32) and "
+              "for the two float64 structure-function copies.")
 LEVEL_NOTE = ("Trusted: scipy.special and the Gauss-Legendre Hankel quadrature of mc/refmodels/vk_closed_forms.py "
               "(cross-checked against its own closed form to 1e-9). Not covered: parameters between lattice points, "
-              "0 < r/L0 < 1e-8 (float64 cancellation of the closed form), the limit L0 -> infinity beyond 1e6.")
+              "relative accuracy for 0 < r/L0 < 1e-8 (float64 cancellation of the closed form; only the absolute allowance "
+              "1e-13 B(0) is decided there) and separations below 1e-200 L0, the limit L0 -> infinity beyond 1e6, odd N and "
+              "the FFT= argument of the screen generators, stf_vonKarman_yao beyond r = 0.1 L0. Clauses whose measuring "
+              "instrument does not fit the library under test are counted in the *_not_claimed statistics (0 on the "
+              "unchanged library).")
